@@ -142,7 +142,7 @@ def check_degree_split(model, rep):
     calls = [c for c in ast.walk(last) if isinstance(c, ast.Call) and method_name(c) == 'getpoints']
     if len(calls) != 2 or src(calls[0].func.value) != 'self.ref1' or src(calls[1].func.value) != 'self.ref2':
         raise AnalysisError('TensorReference.getpoints: ref1.getpoints(...) * ref2.getpoints(...) was not found')
-    start = next((k for k, s_ in enumerate(f.node.body) if isinstance(s_, ast.Assign) and 'ischeme1' in src(s_.targets[0])), None)
+    start = next((k for k, s_ in enumerate(f.node.body) if isinstance(s_, (ast.Assign, ast.If)) and any(isinstance(n_, ast.Name) and isinstance(n_.ctx, ast.Store) and n_.id == 'ischeme1' for n_ in ast.walk(s_))), None)
     if start is None:
         raise AnalysisError('TensorReference.getpoints: the scheme split was not found')
     stmts = f.node.body[start + 1:f.node.body.index(last)]
